@@ -50,7 +50,7 @@ RULE = ("suite site-order: the same generated tree under 3 listing orders (every
 def _order_job(args: Tuple[int, int, int, str]) -> List[Case]:
     seed, i, variants, size = args
     rng = random.Random((seed * 1000003 + i) * 7 + 1)
-    site = G.gen_site(rng, "valid", size)
+    site = G.gen_site(rng, "title-with-scaled-value" if i % 7 == 3 else "valid", size)
     out: List[Case] = []
     ref = None
     for v in range(variants):
@@ -95,6 +95,9 @@ def suites(tier: str, seed: int) -> List[Suite]:
     # an unrelated site with more distinct recipes (170) than the compile cache holds (128), generated between two
     # generations of the same tree: ~5 s per case
     hist.cases += SC.gen_noise_history_cases(seed, 6 if tier == "quick" else 40)
+    # regenerating INTO THE SAME OUTPUT DIRECTORY after a linked asset got other bytes of the same length (with and
+    # without the old timestamps): must equal a from-scratch generation of the edited tree
+    hist.cases += SC.gen_asset_history_cases(seed, 6 if tier == "quick" else 80, fresh=True)
     return [order, hist]
 
 
